@@ -278,6 +278,7 @@ pub fn gen_lib<R: Rng>(rng: &mut R, big: bool) -> ScriptedCase {
                 max_step_size: 0.01,
                 seed: rng.gen::<u32>() as u64,
                 convergence: Some(1e9),
+                builder_history: if rng.gen_bool(0.3) { Some(rng.gen::<u32>() as u64) } else { None },
             },
             via_api: rng.gen_bool(0.4),
         };
@@ -310,6 +311,7 @@ pub fn gen_lib<R: Rng>(rng: &mut R, big: bool) -> ScriptedCase {
             max_step_size: [0.001, 0.01, 0.1, 1.][rng.gen_range(0, 4)],
             seed: rng.gen::<u32>() as u64,
             convergence: conv,
+            builder_history: if rng.gen_bool(0.3) { Some(rng.gen::<u32>() as u64) } else { None },
         },
         via_api: rng.gen_bool(0.4),
     }
